@@ -98,11 +98,14 @@ def permittedOK (c : Cert) (o : Opts) : Bool :=
   | none => true
   | some name => c.permitted.isEmpty || c.permitted.any (matchNameConstraint name)
 
-/-- `isValid(certType, currentChain, opts)`; `chain` is the current chain, leaf first -/
+/-- `isValid(certType, currentChain, opts)`; `chain` is the current chain, leaf first.  The permitted DNS domains
+    of a certificate constrain what is issued below it: the test is made for issuers (`certType !=
+    leafCertificate`) only.  (Before the repair of round 11 it was made for the certificate being verified too:
+    a leaf whose own permitted domains did not cover the requested host was refused.) -/
 def isValid (c : Cert) (kind : Kind) (chain : List Cert) (o : Opts) : Option Reason :=
   if (match chain.getLast? with | some child => child.iss != c.subj | none => false) then some .nameMismatch
   else if o.now < c.nb || o.now > c.na then some .expired
-  else if !permittedOK c o then some .notAuthorizedForName
+  else if kind != .leaf && !permittedOK c o then some .notAuthorizedForName
   else if kind == .intermediate && (!c.bcValid || !c.isCA) then some .notAuthorizedToSign
   else if c.bcValid && c.maxPathLen >= 0 && (Int.ofNat chain.length - 1 > c.maxPathLen) then some .tooManyIntermediates
   else none
